@@ -1,16 +1,159 @@
 import Pyrtma.Drv.Validators
 import Pyrtma.Spec.Serial
+import Pyrtma.Model.Json
+import Pyrtma.Model.Heap
 /-! Line-protocol driver for M5 (grammar: harness/serial_corr.py). -/
 namespace Pyrtma.Drv.Serial
-open Pyrtma.Validators Pyrtma.Serial Pyrtma.Drv Pyrtma.Drv.Validators
+open Pyrtma.Validators Pyrtma.Serial Pyrtma.Json Pyrtma.Drv Pyrtma.Drv.Validators
 
 structure Leaf where
   off : Nat
   ty : FTy
   val : PyVal
 
+/-! ### class descriptors and whole dictionaries (prefix token grammars, see harness/serial_corr.py) -/
+
+/-- `L k t1..tk` leaf | `A n <desc>` struct array | `( size {F name off <desc>}* )` struct.  Absolute-in-struct
+offsets become paddings; an offset that lies before the end of the previous field is refused (`none`). -/
+def parseDesc : Nat → List String → Option (Desc × List String)
+  | 0, _ => none
+  | fuel + 1, ts =>
+    match ts with
+    | "L" :: k :: r => some (.leaf (ftyOf (r.take (natOf k))), r.drop (natOf k))
+    | "A" :: n :: r => (parseDesc fuel r).map fun (e, r') => (.sarr (natOf n) e, r')
+    | "(" :: size :: r => parseFields fuel (natOf size) 0 r
+    | _ => none
+where
+  parseFields : Nat → Nat → Nat → List String → Option (Desc × List String)
+    | 0, _, _, _ => none
+    | fuel + 1, size, cur, ts =>
+      match ts with
+      | ")" :: r => if cur ≤ size then some (.strct .nil (size - cur), r) else none
+      | "F" :: name :: off :: r =>
+        if natOf off < cur then none else
+          match parseDesc fuel r with
+          | none => none
+          | some (d, r') =>
+            match parseFields fuel size (natOf off + d.size) r' with
+            | some (.strct fs tail, r'') => some (.strct (.cons name (natOf off - cur) d fs) tail, r'')
+            | _ => none
+      | _ => none
+
+/-- `V k t1..tk` leaf value | `[ <val>* ]` list of dicts | `{ {K name <val>}* }` dict -/
+def parseVal : Nat → List String → Option (Val × List String)
+  | 0, _ => none
+  | fuel + 1, ts =>
+    match ts with
+    | "V" :: k :: r => some (.leaf (valOf (r.take (natOf k))), r.drop (natOf k))
+    | "[" :: r => (parseList fuel r).map fun (xs, r') => (.list xs, r')
+    | "{" :: r => (parseKVs fuel r).map fun (kvs, r') => (.dict kvs, r')
+    | _ => none
+where
+  parseList : Nat → List String → Option (Vals × List String)
+    | 0, _ => none
+    | fuel + 1, ts =>
+      match ts with
+      | "]" :: r => some (.nil, r)
+      | _ =>
+        match parseVal fuel ts with
+        | none => none
+        | some (v, r) => (parseList fuel r).map fun (vs, r') => (.cons v vs, r')
+  parseKVs : Nat → List String → Option (KVs × List String)
+    | 0, _ => none
+    | fuel + 1, ts =>
+      match ts with
+      | "}" :: r => some (.nil, r)
+      | "K" :: name :: r =>
+        match parseVal fuel r with
+        | none => none
+        | some (v, r') => (parseKVs fuel r').map fun (kvs, r'') => (.cons name v kvs, r'')
+      | _ => none
+
+def showScalar : Scalar → String
+  | .int n => s!"{n}" | .bool b => s!"{b}" | .flt b => "f" ++ showHex (toLE 8 b)
+  | .str cs => "s" ++ toString cs | .bytes bs => "y" ++ showHex bs | .other => "?"
+  | .cdata _ raw => "c" ++ showHex raw | .strct t raw => s!"t{t}:" ++ showHex raw
+
+def showPyVal : PyVal → String
+  | .sc s => showScalar s
+  | .seq _ xs => "[" ++ String.intercalate "," (xs.map showScalar) ++ "]"
+  | .arr _ _ n _ => s!"<array {n}>"
+
+/- one-line rendering for diff messages -/
+mutual
+def showVal : Val → String
+  | .leaf v => showPyVal v
+  | .dict kvs => "{" ++ showKVs kvs ++ "}"
+  | .list xs => "[" ++ showVals xs ++ "]"
+def showKVs : KVs → String
+  | .nil => ""
+  | .cons k v r => k ++ ":" ++ showVal v ++ "," ++ showKVs r
+def showVals : Vals → String
+  | .nil => ""
+  | .cons v r => showVal v ++ "," ++ showVals r
+end
+
+def showDErr : DErr → String
+  | .field e => showErr e | .key => "KeyError" | .index => "IndexError" | .shape => "shape"
+
+/-- one `from_dict` probe on a (possibly altered) dictionary: what the real code returned -/
+structure FdProbe where
+  name : String
+  impl : Option Bytes
+  val : Option Val
+
+/-- hex of ASCII text -> characters -/
+def hexText (h : String) : List Char := (hexBytes h).map Char.ofNat
+
+/-! ### storage scripts (grammar: harness/serial_corr.py, `HOP` / `HRD`) -/
+inductive HOp
+  | new (cls : Nat) (b : Bytes)
+  | copyAs (cls size src : Nat) (fails : Bool)
+  | view (src off size cls : Nat)
+  | write (dst off : Nat) (data : Bytes)
+  | msgCopy (hdr data : Nat)
+
+structure HSt where
+  st : Pyrtma.Heap.St := {}
+  objs : Array Pyrtma.Heap.Obj := #[]
+  bad : List String := []
+
+def HSt.step (h : HSt) (k : Nat) (op : HOp) : HSt :=
+  let obj := fun (i : Nat) => h.objs.getD i { cls := 0, ref := ⟨0, 0, 0⟩ }
+  match op with
+  | .new cls b => let p := h.st.alloc b; { h with st := p.1, objs := h.objs.push { cls := cls, ref := p.2 } }
+  | .copyAs cls size src fails =>
+    match h.st.copyAs cls size (obj src).ref, fails with
+    | some (s', c), false => { h with st := s', objs := h.objs.push c }
+    | none, true => h
+    | some _, true => { h with bad := s!"op {k}: the model copies, the implementation raised" :: h.bad }
+    | none, false => { h with bad := s!"op {k}: the model refuses the copy, the implementation made one" :: h.bad }
+  | .view src off size cls =>
+    match Pyrtma.Heap.view (obj src).ref off size with
+    | some r => { h with objs := h.objs.push { cls := cls, ref := r } }
+    | none => { h with bad := s!"op {k}: view outside the object" :: h.bad }
+  | .write dst off data => { h with st := h.st.write (obj dst).ref off data }
+  | .msgCopy hd dt =>
+    match h.st.msgCopy (obj hd) (obj dt) with
+    | some (s', h', d') => { h with st := s', objs := (h.objs.push h').push d' }
+    | none => { h with bad := s!"op {k}: the model refuses Message.copy" :: h.bad }
+
 structure Case where
   id : String := ""
+  hops : List HOp := []
+  /-- object id, class tag, bytes: what the implementation reads at the end of the script -/
+  hreads : List (Nat × Nat × Bytes) := []
+  /-- float bit pattern -> the token Python's `json` writes for it -/
+  ftoks : List (Nat × List Char) := []
+  jmin : Option (List Char) := none
+  jpretty : Option (List Char) := none
+  hdesc : Option (Option Desc) := none
+  hbytes : Bytes := []
+  hjmin : Option (List Char) := none
+  hjpretty : Option (List Char) := none
+  desc : Option (Option Desc) := none
+  dict : Option (Option Val) := none
+  probes : List FdProbe := []
   leaves : List Leaf := []
   b0 : Bytes := []
   b0hex : String := ""
@@ -28,7 +171,7 @@ def leafCorr (c : Case) (l : Leaf) : List String :=
   let sz := l.ty.size
   let mine := toDictLeaf l.ty (sliceB c.b0 l.off sz)
   let d1 := if mine == l.val then [] else
-    [s!"{c.id} CORR diff toDict@{l.off} model=[{repr mine}] impl=[{repr l.val}]"]
+    [s!"{c.id} CORR diff toDict@{l.off} model=[{showPyVal mine}] impl=[{showPyVal l.val}]"]
   let d2 := match c.bd with
     | none => []
     | some bd =>
@@ -37,8 +180,116 @@ def leafCorr (c : Case) (l : Leaf) : List String :=
         [s!"{c.id} CORR diff fromDict@{l.off} model=[{showHex mb} {repr me}] impl=[{showHex (sliceB bd l.off sz)}]"]
   d1 ++ d2
 
+/-- whole-class correspondence: `to_dict()` of the real code = `toDict` of the model on the same bytes; `from_dict` of
+the real code on its own dictionary (and on the altered ones) = `fromDict`; the bytes the real code built satisfy
+`wfB` (the hypothesis of `dict_roundtrip`) -/
+def wholeCorr (c : Case) : List String :=
+  match c.desc with
+  | none => []
+  | some none => [s!"{c.id} CORR diff desc: the class layout is not a sequence of increasing offsets"]
+  | some (some d) =>
+    let d0 := if d.size == c.b0.length then [] else
+      [s!"{c.id} CORR diff desc: model size {d.size} impl sizeof {c.b0.length}"]
+    let d1 := match c.dict with
+      | none => []
+      | some none => [s!"{c.id} CORR diff toDictWhole: unparsable dictionary"]
+      | some (some v) =>
+        if toDict d c.b0 == v then [] else
+          [s!"{c.id} CORR diff toDictWhole model=[{showVal (toDict d c.b0)}] impl=[{showVal v}]"]
+    let d2 := (if wfB d c.b0 then [] else
+      [s!"{c.id} CORR diff wf: the bytes built through the field API are outside WFD (hypothesis of dict_roundtrip)"]) ++
+      (if descOkJ d then [] else
+      [s!"{c.id} CORR diff wf: the class has a struct array of length 0 or of non-structs (hypothesis of message_json_roundtrip)"])
+    let d3 := c.probes.reverse.flatMap fun p =>
+      match p.val with
+      | none => [s!"{c.id} CORR diff fromDictWhole/{p.name}: unparsable dictionary"]
+      | some v =>
+        let (mb, me) := fromDict d v
+        match p.impl, me with
+        | none, some _ => []
+        | some ib, none => if mb == ib then [] else
+            [s!"{c.id} CORR diff fromDictWhole/{p.name} model=[{showHex mb}] impl=[{showHex ib}]"]
+        | none, none => [s!"{c.id} CORR diff fromDictWhole/{p.name} model=[{showHex mb}] impl=[err]"]
+        | some ib, some e => [s!"{c.id} CORR diff fromDictWhole/{p.name} model=[err {showDErr e}] impl=[{showHex ib}]"]
+    d0 ++ d1 ++ d2 ++ d3
+
+def firstDiff : List Char → List Char → Nat → Nat
+  | a :: as, b :: bs, i => if a == b then firstDiff as bs (i + 1) else i
+  | _, _, i => i
+
+/-- a one-line window around position `i` -/
+def window (s : List Char) (i : Nat) : String :=
+  String.ofList (((s.drop (i - 40)).take 120).map fun c => if c == '\n' then '|' else c)
+
+/-- one text against the model: the encoder's document is in the subset, `render` gives the text byte for byte, `parse`
+reads the real text back as that document -/
+def textCorr (id what : String) (ind : Option Nat) (doc : Option J) (text : Option (List Char)) : List String :=
+  match text with
+  | none => []
+  | some t =>
+    match doc with
+    | none => [s!"{id} CORR diff {what}: the dictionary has a value outside the modelled JSON subset"]
+    | some j =>
+      (if j.okB then [] else [s!"{id} CORR diff {what}: document outside the domain of parse_render (okB false)"]) ++
+      (if render ind 0 j == t then [] else
+        (let r := render ind 0 j
+         let i := firstDiff r t 0
+         [s!"{id} CORR diff {what}/render at char {i} of {t.length} model=[{window r i}] impl=[{window t i}]"])) ++
+      (if parse t == some j then [] else [s!"{id} CORR diff {what}/parse: the model parser does not read the real text back as the document"])
+
+/-- JSON text correspondence: `to_json(minify=True)`, `to_json()`, and `Message.to_json` (header plus data), both forms -/
+def jsonCorr (c : Case) : List String :=
+  match c.desc with
+  | some (some d) =>
+    let ftok : Nat → List Char := fun b => ((c.ftoks.find? (·.1 == b)).map (·.2)).getD []
+    let jd := toJ ftok (toDict d c.b0)
+    let msg : Option J := match c.hdesc with
+      | some (some hd) =>
+        match toJ ftok (toDict hd c.hbytes), jd with
+        | some jh, some j => some (.obj (.cons (keyOf "header") jh (.cons (keyOf "data") j .nil)))
+        | _, _ => none
+      | _ => none
+    -- Python's `float(token)`: the bit pattern that was formatted to this token (`NaN` reads as the quiet NaN)
+    let fparse : List Char → Nat := fun t =>
+      if t == ['N', 'a', 'N'] then 0x7ff8000000000000 else ((c.ftoks.find? (·.2 == t)).map (·.1)).getD 0
+    let back := fun (what trip : String) (text : Option (List Char)) =>
+      match text, c.trips.find? (·.name == trip) with
+      | some t, some tr =>
+        (match fromJson fparse d t, tr.bytes with
+         | some (mb, none), some ib => if mb == ib then [] else
+             [s!"{c.id} CORR diff {what} model=[{showHex mb}] impl=[{showHex ib}]"]
+         | some (_, some _), none => []
+         | none, none => []
+         | some (mb, none), none => [s!"{c.id} CORR diff {what} model=[{showHex mb}] impl=[err]"]
+         | some (_, some e), some ib => [s!"{c.id} CORR diff {what} model=[err {showDErr e}] impl=[{showHex ib}]"]
+         | none, some ib => [s!"{c.id} CORR diff {what} model=[unparsable text] impl=[{showHex ib}]"])
+      | _, _ => []
+    -- (big classes: the indented text is still compared and parsed, but decoded to bytes only from the minified text:
+    -- the model stores array elements one by one, like ctypes, which is quadratic in the field size)
+    back "fromJson/min" "json_minified" c.jmin ++
+    (if c.b0.length ≤ 2048 then back "fromJson/pretty" "json" c.jpretty else []) ++
+    textCorr c.id "jsonMin" none jd c.jmin ++ textCorr c.id "jsonPretty" (some 2) jd c.jpretty ++
+      textCorr c.id "msgJsonMin" none msg c.hjmin ++ textCorr c.id "msgJsonPretty" (some 2) msg c.hjpretty
+  | _ => []
+
+/-- the storage script replayed in the heap model: every object the implementation holds at the end has the class and
+the bytes the model predicts (copies are fresh buffers, views share) -/
+def heapCorr (c : Case) : List String :=
+  if c.hops.isEmpty then [] else
+    let ops := c.hops.reverse
+    let h := (ops.zip (List.range ops.length)).foldl (fun (h : HSt) (p : HOp × Nat) => h.step p.2 p.1) {}
+    let bad := h.bad.reverse.map fun b => s!"{c.id} CORR diff heap {b}"
+    let rd := c.hreads.reverse.flatMap fun (i, cls, ib) =>
+      match h.objs[i]? with
+      | none => [s!"{c.id} CORR diff heap object {i}: not in the model"]
+      | some o =>
+        let mb := h.st.read o.ref
+        if o.cls != cls then [s!"{c.id} CORR diff heap object {i}: class model={o.cls} impl={cls}"]
+        else if mb == ib then [] else [s!"{c.id} CORR diff heap object {i} model=[{showHex mb}] impl=[{showHex ib}]"]
+    bad ++ rd
+
 def finish (c : Case) : List String :=
-  let diffs := c.leaves.reverse.flatMap (leafCorr c)
+  let diffs := wholeCorr c ++ jsonCorr c ++ heapCorr c ++ c.leaves.reverse.flatMap (leafCorr c)
   let corr := if diffs.isEmpty then [s!"{c.id} CORR ok"] else diffs.take 3
   let o : Pyrtma.Serial.Obs := { orig := c.b0, trips := c.trips, copyShares := c.copyShares, vers := c.vers }
   let prop := match firstFalse (Pyrtma.Serial.clauses o) with
@@ -54,6 +305,30 @@ def step (st : Case × List String) (line : String) : Case × List String :=
     (match splitBar r with
      | [ft, v] => ({ c with leaves := { off := natOf off, ty := ftyOf ft, val := valOf v } :: c.leaves }, out)
      | _ => (c, out))
+  | ["HOP", "N", cls, h] => ({ c with hops := .new (natOf cls) (hexBytes h) :: c.hops }, out)
+  | ["HOP", "C", cls, size, src] => ({ c with hops := .copyAs (natOf cls) (natOf size) (natOf src) false :: c.hops }, out)
+  | ["HOP", "CE", cls, size, src] => ({ c with hops := .copyAs (natOf cls) (natOf size) (natOf src) true :: c.hops }, out)
+  | ["HOP", "V", src, off, size, cls] =>
+    ({ c with hops := .view (natOf src) (natOf off) (natOf size) (natOf cls) :: c.hops }, out)
+  | ["HOP", "W", dst, off, h] => ({ c with hops := .write (natOf dst) (natOf off) (hexBytes h) :: c.hops }, out)
+  | ["HOP", "M", hd, dt] => ({ c with hops := .msgCopy (natOf hd) (natOf dt) :: c.hops }, out)
+  | ["HRD", i, cls, h] => ({ c with hreads := (natOf i, natOf cls, hexBytes h) :: c.hreads }, out)
+  | ["FTOK", h, t] => ({ c with ftoks := (hexNat h, t.toList) :: c.ftoks }, out)
+  | ["JMIN", h] => ({ c with jmin := some (hexText h) }, out)
+  | ["JPRETTY", h] => ({ c with jpretty := some (hexText h) }, out)
+  | "HDESC" :: r =>
+    ({ c with hdesc := some (match parseDesc (r.length + 1) r with | some (d, []) => some d | _ => none) }, out)
+  | ["HB", h] => ({ c with hbytes := hexBytes h }, out)
+  | ["HJMIN", h] => ({ c with hjmin := some (hexText h) }, out)
+  | ["HJPRETTY", h] => ({ c with hjpretty := some (hexText h) }, out)
+  | "DESC" :: r =>
+    ({ c with desc := some (match parseDesc (r.length + 1) r with | some (d, []) => some d | _ => none) }, out)
+  | "DICT" :: r =>
+    ({ c with dict := some (match parseVal (r.length + 1) r with | some (v, []) => some v | _ => none) }, out)
+  | "FD" :: name :: h :: r =>
+    ({ c with probes := { name := name,
+                          impl := if h.startsWith "err" then none else some (if h == c.b0hex then c.b0 else hexBytes h),
+                          val := match parseVal (r.length + 1) r with | some (v, []) => some v | _ => none } :: c.probes }, out)
   | ["B0", h] => ({ c with b0 := hexBytes h, b0hex := h }, out)
   -- (transport only: a blob whose text equals B0's text is B0's byte list; no need to parse it again)
   | ["BD", h] => ({ c with bd := if h.startsWith "err" then none else some (if h == c.b0hex then c.b0 else hexBytes h) }, out)
